@@ -316,6 +316,7 @@ func checkC20(c *Check) {
 		}
 		g := outer.AnonFuncs[0]
 		a := NewAnalysis(p, g)
+		a.Init = p.closureInit(g)
 		a.Run()
 		ok := false
 		for _, r := range a.Returns {
@@ -357,7 +358,9 @@ func checkC20(c *Check) {
 
 // isFreeVal: the term is a captured variable (directly or through its cell).
 func isFreeVal(e *Expr) bool {
-	return e != nil && (e.Op == "free" || (e.Op == "ld" && e.Args[0].Op == "free"))
+	// a captured variable, or (with the captured cells bound as at creation)
+	// the constructor's parameter itself
+	return e != nil && (e.Op == "free" || e.Op == "param" || (e.Op == "ld" && e.Args[0].Op == "free"))
 }
 
 // serveShutdown: Serve's deferred shutdown stops every peer synchronously,
@@ -479,6 +482,7 @@ func (c *Check) optionSettersVerbatim(rule string) {
 			}
 			n++
 			a := NewAnalysis(p, cl)
+			a.Init = p.closureInit(cl)
 			a.Run()
 			o := paramExpr(cl, 0)
 			okAll := len(a.Returns) > 0 && len(a.Undecided) == 0
